@@ -362,6 +362,8 @@ class World(object):
                 return R(n=xtuml.check_uniqueness_constraint(self.m, self.cname(o['c']) if o['c'] else None))
             if kind == 'consistent':
                 return R(b=bool(self.m.is_consistent()))
+            if kind == 'cli':
+                return self.cli(o, R)
             if kind == 'chk_sub':
                 return R(n=xtuml.check_subtype_integrity(self.m, self.cname(o['c']), o['rel']))
             if kind == 'sort':
@@ -378,6 +380,36 @@ class World(object):
             return R(e=type(e).__name__)
         except Exception as e:
             return R(e='PY:' + type(e).__name__)
+
+    def cli(self, o, R):
+        """the command-line consistency checker on the persisted model: violation count returned by main(), and (for a
+        share of the calls) the exit status of the real process"""
+        import logging
+        import subprocess
+        import xtuml.consistency_check as cc
+        tmp = tempfile.mkdtemp(prefix='vt-cli-')
+        try:
+            p = os.path.join(tmp, 'db.sql')
+            xtuml.persist_database(self.m, p)
+            args = []
+            for r in o['rels']:
+                args += ['-r', r[1:]]
+            for c in o['kinds']:
+                args += ['-k', self.cname(c)]
+            logging.disable(logging.CRITICAL)
+            try:
+                n = cc.main(args + [p])
+            finally:
+                logging.disable(logging.NOTSET)
+            nonzero = n > 0
+            if o.get('proc'):
+                rc = subprocess.run([sys.executable, '-m', 'xtuml.consistency_check'] + args + [p], stdout=subprocess.DEVNULL,
+                                    stderr=subprocess.DEVNULL, timeout=60).returncode
+                if (rc != 0) != nonzero or rc not in (0, 1):
+                    return R(e='exit status %d for %d violations' % (rc, n))
+            return R(n=n, b=nonzero)
+        finally:
+            shutil.rmtree(tmp, ignore_errors=True)
 
     # ---- actions ----
     def act(self, act, k, ev):
